@@ -65,6 +65,67 @@ pub fn bytes_leaf_with_crc(tag: &[u8], target: u32) -> Vec<u8> {
     content
 }
 
+/// digests that are simple functions of `d` (what a shortened / folded / hashed-again comparison of digests
+/// would confuse with `d`): 8-byte words permuted, bytes reversed, the leading or trailing half / all but the
+/// last byte kept and the rest changed
+pub fn related_digests(d: &[u8; 32]) -> Vec<(&'static str, [u8; 32])> {
+    let w = |i: usize| -> [u8; 8] { d[i * 8..i * 8 + 8].try_into().unwrap() };
+    let join = |a: [u8; 8], b: [u8; 8], c: [u8; 8], e: [u8; 8]| -> [u8; 32] {
+        let mut o = [0u8; 32];
+        o[..8].copy_from_slice(&a);
+        o[8..16].copy_from_slice(&b);
+        o[16..24].copy_from_slice(&c);
+        o[24..].copy_from_slice(&e);
+        o
+    };
+    let mut out: Vec<(&'static str, [u8; 32])> = vec![
+        ("words-01-swapped", join(w(1), w(0), w(2), w(3))),
+        ("words-23-swapped", join(w(0), w(1), w(3), w(2))),
+        ("words-rotated", join(w(1), w(2), w(3), w(0))),
+        ("words-reversed", join(w(3), w(2), w(1), w(0))),
+    ];
+    let mut r = *d;
+    r.reverse();
+    out.push(("bytes-reversed", r));
+    let mut a = *d;
+    a[31] ^= 0x01;
+    out.push(("last-bit-differs", a));
+    let mut a = *d;
+    a[31] = a[31].wrapping_add(1);
+    a[30] ^= 0x80;
+    out.push(("last-two-bytes-differ", a));
+    let mut a = *d;
+    for b in a[16..].iter_mut() {
+        *b = !*b;
+    }
+    out.push(("leading-half-equal", a));
+    let mut a = *d;
+    for b in a[..16].iter_mut() {
+        *b = !*b;
+    }
+    out.push(("trailing-half-equal", a));
+    let mut a = *d;
+    a[0] ^= 0x80;
+    out.push(("first-bit-differs", a));
+    out.retain(|(_, x)| x != d);
+    out
+}
+
+/// a different byte string of the same length and the same CRC-32 as `b` (one byte in the middle changed, the
+/// last four bytes solved for); None when `b` is shorter than 6 bytes
+pub fn same_len_same_crc(b: &[u8]) -> Option<Vec<u8>> {
+    if b.len() < 6 {
+        return None;
+    }
+    let mut o = b.to_vec();
+    let mid = (b.len() - 4) / 2;
+    o[mid] ^= 0x5a;
+    let n = o.len();
+    let sfx = crc_suffix(&o[..n - 4], crc32(b));
+    o[n - 4..].copy_from_slice(&sfx);
+    if o == b { None } else { Some(o) }
+}
+
 pub const SPECIAL_CRCS: [u32; 10] = [0xFFFF_FFFF, 0, 1, 0xFFFF_FFFE, 0x7FFF_FFFF, 0x8000_0000, 0x0000_FFFF, 0xFFFF_0000, 0x0100_0000, 0x00FF_FFFF];
 
 // ---------------------------------------------------------------------------------------------
